@@ -326,7 +326,8 @@ end Props.C16
 `p ≡ 3 (mod 4)` (proofs: Proofs/E2E/C16.lean).  ECDH (T5) and the silent-payment agreement (T9) never call `lift_x`:
 they are about `Btc.EC.ops C` ITSELF, raw integer pairs.  MuSig2 (T2, T3) parses every key and nonce with `lift_x`
 throughout the session: stated over `opsSub K` (`Btc.EC.ops C` on the underlying pairs, `lift_x` answering inside the
-`n`-torsion; `Btc.C01.opsSub_val`).  For secp256k1 the only hypotheses are the primality of `p` and of `n`. -/
+`n`-torsion; `Btc.C01.opsSub_val`).  For secp256k1 nothing is assumed about the curve (primality of `p`, `n`: Pratt
+certificates, `Btc.E2E.secp256k1_p_prime`, `secp256k1_n_prime`). -/
 namespace Props.C16
 open Btc Btc.EC Btc.C01 Btc.E2E Btc.Py Btc.C16
 
@@ -379,15 +380,15 @@ theorem musig2_aggregate_verifies_ec {p : ℕ} [Fact p.Prime] {C : Curve} (K : C
       bip340Verify (opsSub K) H ((EC.ops C).x v.Q.1) msg r sg = true :=
   Btc.E2E.musig2_aggregate_verifies_ec K h34 H hp hn l hl tweaks msg an han v hv hR sigs hs
 
-/-- T5 on secp256k1: ONLY primality of `p` and `n` assumed -/
-theorem ecdh_symmetric_secp256k1 (hp : Nat.Prime secp256k1_p) (hn : Nat.Prime secp256k1_n)
+/-- T5 on secp256k1, unconditional (primality of `p`, `n` proved: Pratt certificates) -/
+theorem ecdh_symmetric_secp256k1
     (kdf : Bytes → R Bytes) (a b : ℤ) :
     diffieHellman (EC.ops secp256k1) kdf a ((EC.ops secp256k1).mul b secp256k1.G) =
       diffieHellman (EC.ops secp256k1) kdf b ((EC.ops secp256k1).mul a secp256k1.G) :=
-  Btc.E2E.ecdh_symmetric_secp256k1 hp hn kdf a b
+  Btc.E2E.ecdh_symmetric_secp256k1 kdf a b
 
 /-- T9 (agreement) on secp256k1 -/
-theorem sp_sender_scanner_agree_secp256k1 (hp : Nat.Prime secp256k1_p) (hn : Nat.Prime secp256k1_n)
+theorem sp_sender_scanner_agree_secp256k1
     (H : Bytes → Bytes → Bytes) (keys : List (ℤ × Bool)) (a : ℤ) (h : prvKeySum (EC.ops secp256k1) keys = .ok a)
     (A : Point)
     (hA : pubKeySum (EC.ops secp256k1) (keys.map fun k => spInputPoint (EC.ops secp256k1) k.1 k.2) = .ok A)
@@ -398,33 +399,33 @@ theorem sp_sender_scanner_agree_secp256k1 (hp : Nat.Prime secp256k1_p) (hn : Nat
     ∀ k, outputTweak (EC.ops secp256k1) H
           ((EC.ops secp256k1).mul (hh * a % secp256k1.n) ((EC.ops secp256k1).mul bScan secp256k1.G)) k
         = outputTweak (EC.ops secp256k1) H ((EC.ops secp256k1).mul bScan ((EC.ops secp256k1).mul hh A)) k :=
-  Btc.E2E.sp_sender_scanner_agree_secp256k1 hp hn H keys a h A hA lowest hh hih bScan hb
+  Btc.E2E.sp_sender_scanner_agree_secp256k1 H keys a h A hA lowest hh hih bScan hb
 
-/-- T2 on secp256k1 (`secpOps hp hn` = `opsSub` of secp256k1) -/
-theorem musig2_partial_sig_verifies_secp256k1 (hp : Nat.Prime secp256k1_p) (hn : Nat.Prime secp256k1_n)
+/-- T2 on secp256k1 (`secpOps` = `opsSub` of secp256k1) -/
+theorem musig2_partial_sig_verifies_secp256k1
     (H : Bytes → Bytes → Bytes) (s : SessionCtx) (d k1 k2 σ : ℤ)
-    (hs : sign (secpOps hp hn) H k1 k2 (individualPubKey (EC.ops secp256k1) d) d s = .ok σ) :
-    partialSigVerify (secpOps hp hn) H (sBytes σ)
+    (hs : sign secpOps H k1 k2 (individualPubKey (EC.ops secp256k1) d) d s = .ok σ) :
+    partialSigVerify secpOps H (sBytes σ)
       (cbytes (EC.ops secp256k1) ((EC.ops secp256k1).mul k1 secp256k1.G) ++
         cbytes (EC.ops secp256k1) ((EC.ops secp256k1).mul k2 secp256k1.G))
       (individualPubKey (EC.ops secp256k1) d) s = .ok true :=
-  Btc.E2E.musig2_partial_sig_verifies_secp256k1 hp hn H s d k1 k2 σ hs
+  Btc.E2E.musig2_partial_sig_verifies_secp256k1 H s d k1 k2 σ hs
 
 /-- T3 on secp256k1 -/
-theorem musig2_aggregate_verifies_secp256k1 (hp : Nat.Prime secp256k1_p) (hn : Nat.Prime secp256k1_n)
+theorem musig2_aggregate_verifies_secp256k1
     (H : Bytes → Bytes → Bytes) (l : List Signer) (hl : ∀ t ∈ l, t.ok (EC.ops secp256k1))
     (tweaks : List (Bytes × Bool)) (msg an : Bytes)
-    (han : nonceAgg (secpOps hp hn) (l.map (Signer.pubNonce (secpOps hp hn))) = .ok an)
-    (v : SessionValues (SecpPt hp))
-    (hv : sessionValues (secpOps hp hn) H (honestCtx (secpOps hp hn) l an tweaks msg none) = .ok v)
+    (han : nonceAgg secpOps (l.map (Signer.pubNonce secpOps)) = .ok an)
+    (v : SessionValues SecpPt)
+    (hv : sessionValues secpOps H (honestCtx secpOps l an tweaks msg none) = .ok v)
     (hR : ((l.map Signer.k1).sum + v.b * (l.map Signer.k2).sum) % secp256k1.n ≠ 0)
     (sigs : List ℤ)
-    (hs : List.Forall₂ (fun t σ => sign (secpOps hp hn) H t.k1 t.k2 (t.pk (secpOps hp hn)) t.d
-      (honestCtx (secpOps hp hn) l an tweaks msg none) = .ok σ) l sigs) :
-    ∃ r sg, partialSigAgg (secpOps hp hn) H (sigs.map sBytes) (honestCtx (secpOps hp hn) l an tweaks msg none)
+    (hs : List.Forall₂ (fun t σ => sign secpOps H t.k1 t.k2 (t.pk secpOps) t.d
+      (honestCtx secpOps l an tweaks msg none) = .ok σ) l sigs) :
+    ∃ r sg, partialSigAgg secpOps H (sigs.map sBytes) (honestCtx secpOps l an tweaks msg none)
         = .ok (r, sg) ∧
-      bip340Verify (secpOps hp hn) H ((EC.ops secp256k1).x v.Q.1) msg r sg = true :=
-  Btc.E2E.musig2_aggregate_verifies_secp256k1 hp hn H l hl tweaks msg an han v hv hR sigs hs
+      bip340Verify secpOps H ((EC.ops secp256k1).x v.Q.1) msg r sg = true :=
+  Btc.E2E.musig2_aggregate_verifies_secp256k1 H l hl tweaks msg an han v hv hR sigs hs
 
 -- non-vacuity on `y² = x³ + 7` over `F₄₃` (`CurveOk` PROVED, nothing assumed): an ECDH run and what T5 says of the
 -- other side; a two-input silent payment (one taproot input with odd y) with every hypothesis of T9 computed
